@@ -22,12 +22,13 @@ def load(map_file):
     return _maps[map_file]
 
 class Gen:
-    def __init__(self, map_file, icvn, vriic, fic, seed=0, p_opt=0.0, max_rep=1, tspc=None, rand_codes=True, p_rich=0.0):
+    def __init__(self, map_file, icvn, vriic, fic, seed=0, p_opt=0.0, max_rep=1, tspc=None, rand_codes=True, p_rich=0.0, p_perm=0.0):
         self.map = load(map_file)
         self.icvn, self.vriic, self.fic, self.tspc = icvn, vriic, fic, tspc
         self.rng = random.Random(seed)
         self.p_opt = p_opt; self.max_rep = max_rep; self.rand_codes = rand_codes
         self.p_rich = p_rich
+        self.p_perm = p_perm      # probability of permuting same-position siblings (they have no map order among themselves)
         self.segs = []
         self.hl_count = 0; self.lx = 0; self.stseg = 0
         self.is837 = self.map.id == '837'
@@ -181,7 +182,10 @@ class Gen:
     def emit_children(self, node, ctx):
         first = True
         for o in sorted(node.pos_map):
-            for c in node.pos_map[o]:
+            bucket = list(node.pos_map[o])
+            if self.p_perm and len(bucket) > 1 and not first and self.rng.random() < self.p_perm:
+                self.rng.shuffle(bucket)
+            for c in bucket:
                 if c.is_loop(): self.emit_loop(c, ctx)
                 elif first and node.is_loop() and node.type != 'wrapper':
                     # a loop instance always begins with its first segment, exactly once
